@@ -105,6 +105,17 @@ CLAIMED.update({
    design="§7 C04", technique="contract-based deductive verification of frames, ownership and lock discipline (sufficient conditions; SMT)"),
 })
 
+CLAIMED.update({
+ "C18": dict(
+   text="Deductive proof of the dynamic-rules checker's configuration logic: newErrorHandler accepts exactly the non-empty comma-separated items dsl/import/all (any other item is an error) "
+        "and builds a well-formed predicate table; failOnParseError(e) is true iff 'all' is listed, or 'import' and e is an import error, or 'dsl' and e is not (range over the table with a "
+        "visited-keys ghost, the predicates being verified closures called through function values); the legacy failOnError flag maps to 'all'; the group filter runs a group iff "
+        "(enable is <all>, or its name or a tag is enabled) and its name is not disabled and no tag is disabled, with the tag scans verified as separate closures; every disable entry is recorded "
+        "as a tag or a name; a pattern that matches no file ends initialisation with an error; with no rules the checker has no engine; an initialisation error returns no checker; the engine is "
+        "run per file with the current context. What the engine does with loaded files, filepath.Glob and file contents are outside.",
+   design="§7 C18", technique="contract-based deductive verification (closures, map-range ghost, pure dynamic calls; SMT)"),
+})
+
 NA_REASON_PENDING = "check not built yet in this round (planned, DESIGN §7); not claimed until its obligations discharge"
 NOT_APPLICABLE = {
  "C11": "no contract within reach can state equality of Go-regexp match behaviour between a pattern and the string printed from a third-party parse tree (DESIGN §8)",
